@@ -9,7 +9,7 @@ use crate::sem::fun::run_fun;
 
 pub fn example_dirs() -> Vec<std::path::PathBuf> {
     let mut v = Vec::new();
-    for base in ["/repo/examples", "/repo/testsuite/end_to_end"] {
+    for base in [format!("{}/examples", crate::framework::repo_dir()), format!("{}/testsuite/end_to_end", crate::framework::repo_dir())] {
         if let Ok(rd) = std::fs::read_dir(base) {
             for e in rd.flatten() {
                 if e.path().is_dir() {
